@@ -116,6 +116,8 @@ func init() {
 		Old: "\terr = res.handleResponseValue(resp, true, nestedArchetypeReadAck)\n\tif err != nil {\n\t\treturn tla.Value{}, err\n\t}\n", New: "\t_ = res.handleResponseValue(resp, true, nestedArchetypeReadAck)\n", Expect: "ReadValue"})
 	seed(Seed{Name: "nested-refusal-accepted-anywhere", Prop: "C01", Rule: "NESTED-DECISION", File: res + "nestedarch.go",
 		Old: "if allowAborted && tpe.Equal(nestedArchetypeAborted) {", New: "if allowAborted || tpe.Equal(nestedArchetypeAborted) {", Expect: "handleResponseValue"})
+	seed(Seed{Name: "shared-cell-abort-keeps-write", Prop: "C07", Rule: "CELL-RESTORE", File: "distsys/archetyperesource.go",
+		Old: "\tres.value = res.oldValue\n\treturn nil", New: "\treturn nil", Expect: "LocalArchetypeResource"})
 	seed(Seed{Name: "merge-second-loop-reuses-iterator", Prop: "C12", Rule: "ITER-FRESH", File: res + "aworset.go",
 		Old: "\ti = remK.Iterator()\n", New: "", Expect: "AWORSet.Merge"})
 }
